@@ -137,10 +137,46 @@ theorem parseAcc_append (xs : Bytes) (d acc : Nat) :
     · exact ih _
     · rfl
 
+theorem div10_lt {n f : Nat} (h : n < 10 ^ (f + 2)) : n / 10 < 10 ^ (f + 1) := by
+  apply Nat.div_lt_of_lt_mul
+  rw [Nat.pow_succ] at h
+  omega
+
+/-- With enough fuel the result does not depend on the fuel. -/
+theorem digitsAux_fuel : ∀ (f g n : Nat), n < 10 ^ (f + 1) → n < 10 ^ (g + 1) → digitsAux f n = digitsAux g n
+  | 0, 0, _, _, _ => rfl
+  | 0, g + 1, n, h, _ => by
+    have : n < 10 := by simpa using h
+    simp [digitsAux, this]
+  | f + 1, 0, n, _, h => by
+    have : n < 10 := by simpa using h
+    simp [digitsAux, this]
+  | f + 1, g + 1, n, hf, hg => by
+    simp only [digitsAux]
+    split
+    · rfl
+    · rw [digitsAux_fuel f g (n / 10) (div10_lt hf) (div10_lt hg)]
+
+theorem lt_ten_pow_succ (n : Nat) : n < 10 ^ (n + 1) :=
+  Nat.lt_trans (Nat.lt_pow_self (by decide : 1 < 10)) (Nat.pow_lt_pow_right (by decide) (Nat.lt_succ_self n))
+
+/-- The defining equation of the decimal rendering. -/
+theorem natDigits_unfold (n : Nat) :
+    natDigits n = if n < 10 then [48 + n] else natDigits (n / 10) ++ [48 + n % 10] := by
+  unfold natDigits
+  cases n with
+  | zero => rfl
+  | succ m =>
+    simp only [digitsAux]
+    split
+    · rfl
+    · rename_i h
+      rw [digitsAux_fuel m ((m + 1) / 10) ((m + 1) / 10) (div10_lt (lt_ten_pow_succ (m + 1))) (lt_ten_pow_succ _)]
+
 theorem parseAcc_natDigits (n : Nat) : parseAcc (natDigits n) 0 = some n := by
   induction n using Nat.strongRecOn with
   | _ n ih =>
-    unfold natDigits
+    rw [natDigits_unfold]
     split
     · rename_i h
       simp [parseAcc]
@@ -151,7 +187,7 @@ theorem parseAcc_natDigits (n : Nat) : parseAcc (natDigits n) 0 = some n := by
       omega
 
 theorem natDigits_ne_nil (n : Nat) : natDigits n ≠ [] := by
-  unfold natDigits
+  rw [natDigits_unfold]
   split <;> simp
 
 /-- Round trip of the decimal rendering. -/
@@ -166,7 +202,7 @@ theorem natDigits_inj {a b : Nat} (h : natDigits a = natDigits b) : a = b := by
 theorem natDigits_lt (n : Nat) : ∀ b ∈ natDigits n, 48 ≤ b ∧ b ≤ 57 := by
   induction n using Nat.strongRecOn with
   | _ n ih =>
-    unfold natDigits
+    rw [natDigits_unfold]
     split
     · intro b hb; simp at hb; omega
     · intro b hb
